@@ -19,7 +19,8 @@ CLASSES = [("Z", "Zahl", "Die", "einer"), ("K", "Kommazahl", "Die", "einer"), ("
            ("C", "Buchstabe", "Der", "einem"), ("T", "Text", "Der", "einem"),
            ("LZ", "Zahlen Liste", "Die", "einer"), ("LK", "Kommazahlen Liste", "Die", "einer"), ("LB", "Byte Liste", "Die", "einer"), ("LW", "Wahrheitswert Liste", "Die", "einer"),
            ("LC", "Buchstaben Liste", "Die", "einer"), ("LT", "Text Liste", "Die", "einer"), ("S", "Paar", "Der", "einem"), ("LS", "Paar Liste", "Die", "einer"), ("V", "Variable", "Die", "einer"),
-           ("AZ", "Nummer", "Die", "einer"), ("AT", "Wort", "Die", "einer"), ("ALZ", "Reihe", "Die", "einer"), ("DZ", "Hausnummer", "Die", "einer"), ("DT", "Name", "Die", "einer")]
+           ("AZ", "Nummer", "Die", "einer"), ("AT", "Wort", "Die", "einer"), ("ALZ", "Reihe", "Die", "einer"), ("DZ", "Hausnummer", "Die", "einer"), ("DT", "Name", "Die", "einer"),
+           ("DLZ", "Zahlenreihe", "Die", "einer"), ("LDZ", "Hausnummer Liste", "Die", "einer"), ("DS", "Doppel", "Das", "einem")]
 PRELUDE = """Binde "Duden/Ausgabe" ein.
 Wir nennen die Kombination aus
 	der Zahl zahl mit Standardwert 7,
@@ -31,6 +32,8 @@ Wir nennen einen Text auch eine Wort.
 Wir nennen eine Zahlen Liste auch eine Reihe.
 Wir definieren eine Hausnummer als eine Zahl.
 Wir definieren eine Name als einen Text.
+Wir definieren eine Zahlenreihe als eine Zahlen Liste.
+Wir definieren ein Doppel als einen Paar.
 """
 ART = {c[1]: (c[2], c[3]) for c in CLASSES}
 
@@ -101,7 +104,7 @@ def contexts(R):
                                 "Die Variable cr%d ist gib%d." % (i, i)])]
     if R == "Wahrheitswert":
         cs.append(("cond", lambda e, i: ["Wenn %s, dann:" % e, "\tDie Zahl cc%d ist 1." % i, "Solange %s, mache:" % e, "\tVerlasse die Schleife."]))
-    if not R.endswith("Liste") and R not in ("Reihe",):
+    if not R.endswith("Liste") and R not in ("Reihe", "Zahlenreihe"):
         lt = {"Zahl": "Zahlen Liste", "Kommazahl": "Kommazahlen Liste", "Buchstabe": "Buchstaben Liste", "Variable": "Variablen Liste"}.get(R, R + " Liste")
         cs.append(("listelem", lambda e, i: ["Die %s cl%d ist eine Liste, die aus %s, %s besteht." % (lt, i, e, e)]))
     if R in ("Zahl", "Kommazahl", "Byte", "Nummer"):
